@@ -27,10 +27,12 @@ func (w *writer) Write(p []byte) (n int, err error) {
 func (w *writer) Close() (err error) {
 	var data []byte
 	if data, err = NewCipher().Encrypt(w.key, w.data); err != nil {
+		w.stream.Close()
 		return err
 	}
 	w.data = nil
 	if _, err = w.stream.Write(data); err != nil {
+		w.stream.Close()
 		return err
 	}
 	return w.stream.Close()
